@@ -250,3 +250,47 @@ theorem wmean_affine (gs xs : List α) (a b : α) (hlen : gs.length = xs.length)
   rw [dot_affine gs xs a b hlen]; field_simp
 
 end SF.Alma
+
+/-! ### bounded memory: the three deques always have the same length, at most N -/
+namespace SF.Alma
+open SF SF.Spec
+set_option linter.unusedSectionVars false
+set_option linter.unusedSimpArgs false
+variable {α : Type} [Field α] [LinearOrder α] [IsStrictOrderedRing α] [FloatLike α] [ExactScalar α] [Transc α]
+
+theorem step_len (N : Nat) (sigma offset : α) (s s' : AlmaState α) (x : α)
+    (h : (almaCore N sigma offset).step s x = .ok s') (hl : s.qOut.length = s.qVals.length) :
+    s'.qOut.length = s'.qVals.length := by
+  simp only [almaCore, bind, Except.bind, pure, Except.pure, assertFinite_exact] at h
+  by_cases hf : N ≤ s.qVals.length
+  · rw [if_pos hf] at h
+    cases hv : s.qVals with
+    | nil => simp [front, hv, pure, Except.pure, throw, throwThe, MonadExceptOf.throw] at h
+    | cons a r =>
+      cases hw : s.qWtd with
+      | nil => simp [front, hv, hw, pure, Except.pure, throw, throwThe, MonadExceptOf.throw] at h
+      | cons w rw' =>
+        simp only [front, hv, hw, pure, Except.pure] at h
+        cases h
+        have : s.qOut.tail.length = r.length := by
+          rw [List.length_tail, hl, hv]; simp
+        simp [this]
+  · rw [if_neg hf] at h
+    cases h
+    simp [hl]
+
+theorem size_le (N : Nat) (hN : 0 < N) (sigma offset : α) (xs : List α) (s : AlmaState α)
+    (h : (almaCore (α := α) N sigma offset).run (almaCore (α := α) N sigma offset).init xs = .ok s) :
+    (almaCore (α := α) N sigma offset).size s ≤ 3 * N := by
+  obtain ⟨s', hs, hi, hlen⟩ := Core.run_invariant_init (almaCore N sigma offset)
+    (fun s xs => Inv N (offset * ((N : α) + 1)) ((N : α) / sigma) s xs ∧ s.qOut.length = s.qVals.length)
+    ⟨⟨by simp [almaCore], by simp [almaCore, W], by simp [almaCore, dot], by simp [almaCore], by simp [almaCore]⟩, by simp [almaCore]⟩
+    (fun s pre x h => by
+      obtain ⟨s', hs', hi'⟩ := step_ok N hN sigma offset s pre x h.1
+      exact ⟨s', hs', hi', step_len N sigma offset s s' x hs' h.2⟩) xs
+  rw [h] at hs; cases hs
+  show s.qVals.length + s.qWtd.length + s.qOut.length ≤ 3 * N
+  have h1 : s.qVals.length ≤ N := by rw [hi.hq]; exact lastN_length_le N xs
+  have h2 : s.qWtd.length ≤ N := by rw [hi.hw]; exact lastN_length_le N _
+  omega
+end SF.Alma
